@@ -18,3 +18,162 @@ def run(ctx):
             elif kind not in ("vacuous",):
                 rs.unrec("get_theory(%s): %s" % (shape, detail[:100]))
     ctx.floor(rs, 45)
+
+
+# ------------------------------------------------------------------------------------------------------
+# R7: history independence of the environment's services, by interpretation.
+#
+# For each service of the environment (simplify, substitute, type, free symbols, atoms, sorts, size, theory,
+# quantifier-freeness, nnf, prenex, aig, cnf) and each target skeleton f, the service is interpreted on f
+#   (a) in a fresh environment, and
+#   (b) in an environment in which the same services were first applied to *other* formulas that share
+#       sub-terms with f, use the same symbols in other roles, and (for substitution) other maps;
+# the two results must be equal up to the order of commutative arguments and the names of fresh symbols, and
+# repeating the call in (b) must return the very same object when no fresh symbol is involved.
+from ..absint import AbsRaise, AObj, Unsupported          # noqa: E402
+from ..common import parallel_map                         # noqa: E402
+from .. import proc                                       # noqa: E402
+from ..proc import Shape, S, BOOL, INT, REAL              # noqa: E402
+from .. import simpcheck as sc                            # noqa: E402
+import re as _re                                          # noqa: E402
+
+COMMUTATIVE = {"AND", "OR", "PLUS", "TIMES", "IFF", "EQUALS", "BV_AND", "BV_OR", "BV_XOR", "BV_ADD", "BV_MUL"}
+
+
+def ac_sig(w, v):
+    """canonical signature: children of commutative operators sorted, fresh names normalised"""
+    if w.is_node(v):
+        op = w.opname(v)
+        if op == "SYMBOL":
+            return ("sym", _re.sub(r"FV\\d+", "FV#", str(w.npayload(v)[0])))
+        kids = [ac_sig(w, a) for a in w.nargs(v)]
+        if op in COMMUTATIVE:
+            kids = sorted(kids, key=repr)
+        p = w.npayload(v)
+        if op in ("FORALL", "EXISTS"):
+            p = tuple(ac_sig(w, x) for x in p)
+        elif op == "FUNCTION":
+            p = ac_sig(w, p)
+        elif isinstance(p, (tuple, list)):
+            p = tuple(repr(x) if not w.is_node(x) else ac_sig(w, x) for x in p)
+        elif isinstance(p, AObj):
+            p = w.to_str(p) if not w.is_node(p) else ac_sig(w, p)
+        return (op, tuple(kids), repr(p))
+    if isinstance(v, (list, tuple)):
+        return tuple(ac_sig(w, x) for x in v)
+    if isinstance(v, (set, frozenset)):
+        return frozenset(ac_sig(w, x) for x in v)
+    if isinstance(v, dict):
+        return frozenset((ac_sig(w, a), ac_sig(w, b)) for a, b in v.items())
+    if isinstance(v, AObj):
+        if v.cls.endswith(".Theory") or v.cls.endswith(".Logic"):
+            return (v.cls, tuple(sorted((k, repr(x)) for k, x in v.attrs.items() if isinstance(x, (bool, int, str, type(None))))))
+        try:
+            return ("obj", v.cls, w.to_str(v))
+        except Exception:
+            return ("obj", v.cls)
+    return v
+
+
+def _services():
+    def meth(name, *extra):
+        return lambda w, it, f: it.call(it.getattr(f, name), list(extra))
+
+    def modfn(mod, name):
+        return lambda w, it, f: it.call(it.module_global(w.repo.modules[mod], name), [f])
+    sub = lambda w, it, f: it.call(it.getattr(f, "substitute"), [{w.symbol("a", ("BOOL",)): w.symbol("c", ("BOOL",)),
+                                                                  w.symbol("x", ("INT",)): w.symbol("y", ("INT",))}])
+    return {
+        "simplify": (meth("simplify"), False), "substitute": (sub, False), "get_type": (meth("get_type"), False),
+        "free variables": (meth("get_free_variables"), False), "atoms": (meth("get_atoms"), False),
+        "size": (meth("size"), False), "get_logic": (modfn("pysmt.oracles", "get_logic"), False),
+        "nnf": (modfn("pysmt.rewritings", "nnf"), False), "prenex": (modfn("pysmt.rewritings", "prenex_normal_form"), True),
+        "aig": (modfn("pysmt.rewritings", "aig"), False), "cnf": (modfn("pysmt.rewritings", "cnf"), True),
+    }
+
+
+def _history_shapes():
+    a, b, c = S("a"), S("b"), S("c")
+    x, y, z = S("x", INT), S("y", INT), S("z", INT)
+    lt = ("LT", ("Plus", x, y), z)
+    o = ("Or", a, lt)
+    targets = [("And", o, ("Not", ("And", b, o))), ("Implies", ("Iff", a, b), ("Ite", c, lt, ("Not", lt))),
+               ("forall", [("a", BOOL)], ("Or", a, ("And", b, lt))), ("Equals", ("Times", ("lit", 2, INT), ("Plus", x, y)), ("Minus", z, x))]
+    history = [o, ("And", b, o), ("Not", lt), ("Plus", x, y), ("Iff", a, b), ("Or", ("And", b, lt), c),
+               ("exists", [("b", BOOL)], ("And", b, lt)), ("LE", ("Plus", x, y), ("lit", 0, INT)), ("And", a, ("Not", a))]
+    return targets, history
+
+
+def _hist_job(job):
+    svc, ti = job
+    targets, history = _history_shapes()
+    shape = Shape(targets[ti])
+    fn, fresh_syms = _services()[svc]
+
+    def apply(w, it, f):
+        try:
+            return ("ret", fn(w, it, f))
+        except AbsRaise as ex:
+            return ("raise", ex.cls_name)
+
+    def call_fresh(w, it, f):
+        r = apply(w, it, f)
+        return (r[0], ac_sig(w, r[1]) if r[0] == "ret" else r[1])
+
+    def call_hist(w, it, f):
+        from ..absint import ExtRef
+        for ht in history:
+            h = proc.build_shape(w, ht)
+            for nm in ("simplify", "substitute", "get_type", "free variables", "atoms", "size", "get_logic", "nnf", "aig"):
+                if w.nsort(h) != ("BOOL",) and nm in ("nnf", "aig", "atoms"):
+                    continue
+                try:
+                    _services()[nm][0](w, it, h)
+                except AbsRaise:
+                    pass
+        # another map for the substituter, a failing construction, many unrelated nodes
+        try:
+            it.call(it.getattr(f, "substitute"), [{w.symbol("a", ("BOOL",)): w.symbol("b", ("BOOL",))}])
+            w.app("And", w.symbol("x", ("INT",)), w.symbol("a", ("BOOL",)))
+        except AbsRaise:
+            pass
+        for i in range(12):
+            w.app("Or", w.symbol("u%d" % i, ("BOOL",)), w.symbol("a", ("BOOL",)))
+        r1 = apply(w, it, f)
+        r2 = apply(w, it, f)
+        same = r1[0] == "ret" and r2[0] == "ret" and (r1[1] is r2[1] or (not w.is_node(r1[1]) and ac_sig(w, r1[1]) == ac_sig(w, r2[1])))
+        return (r1[0], ac_sig(w, r1[1]) if r1[0] == "ret" else r1[1], same)
+
+    pf = proc.run_proc(shape, call_fresh, post=lambda w, f, v, facts: proc.ProcResult(shape, "valid", v), services="full", max_paths=8)
+    ph = proc.run_proc(shape, call_hist, post=lambda w, f, v, facts: proc.ProcResult(shape, "valid", v), services="full", max_paths=8,
+                       interp_kwargs={"max_steps": 8000000})
+    if len(pf) != 1 or pf[0].kind != "valid" or len(ph) != 1 or ph[0].kind != "valid":
+        bad = [r for r in pf + ph if r.kind != "valid"]
+        return (svc, repr(shape), "unsupported", "%s %s" % (bad[0].kind, str(bad[0].detail)[:200]) if bad else "several paths")
+    a_, b_ = pf[0].detail, ph[0].detail
+    if a_[0] != b_[0]:
+        return (svc, repr(shape), "invalid", "fresh environment: %s; after other work: %s" % (a_[0], b_[0]))
+    if a_[0] == "raise":
+        return (svc, repr(shape), "valid" if a_[1] == b_[1] else "invalid", "raises %s / %s" % (a_[1], b_[1]))
+    if a_[1] != b_[1]:
+        return (svc, repr(shape), "invalid", "the result differs from the one in a fresh environment: %s vs %s"
+                % (str(b_[1])[:160], str(a_[1])[:160]))
+    if not fresh_syms and not b_[2]:
+        return (svc, repr(shape), "invalid", "repeating the call returns a different object")
+    return (svc, repr(shape), "valid", "same as in a fresh environment; repeatable")
+
+
+def run_history(ctx):
+    if not ctx.want("R7"):
+        return
+    rs = ctx.rule("R7", "services of an environment answer as in a fresh environment after other formulas were built, queried and transformed")
+    targets, _h = _history_shapes()
+    jobs = [(svc, ti) for svc in _services() for ti in range(len(targets))]
+    for svc, shape, kind, detail in parallel_map(_hist_job, jobs):
+        if kind == "valid":
+            rs.ok({"service": svc, "skeleton": shape, "result": detail})
+        elif kind == "invalid":
+            ctx.finding(rs, "history|%s|%s" % (svc, shape), "%s on %s: %s" % (svc, shape, detail), "pysmt/environment.py")
+        else:
+            rs.unrec("%s on %s: %s" % (svc, shape, detail[:160]))
+    ctx.floor(rs, 30)
